@@ -31,6 +31,69 @@ def guarded_field_writes(bv, W, test_name, self_prefix, other_prefix):
     return out
 
 
+def field_updates(bv, W, names=None, _depth=0, _subst=None):
+    """Guarded writes to fields of the receiver, in this body and in the private helpers (same receiver handed on) it calls:
+    [(field chain, value rendered, guards, bv, block)], guards = [(rendered condition, outcome)] where outcome is True/False for
+    a boolean test and a variant name for a match/if-let on a discriminant.  Helper parameters are replaced by the caller's
+    arguments before rendering, so the result reads the same whether or not the code was moved into a helper."""
+    from .. import guards as G
+    out = []
+    sub = (lambda t: lib.subst_params(t, _subst)) if _subst else (lambda t: t)
+    rd = lambda t: terms.render(bv, sub(t), W, names or {})
+    tests = bv.bool_edges(lambda t: t[0] == "call")
+    by_switch = {}
+    for (sb, tgt, truth) in tests:
+        by_switch.setdefault((sb, truth), []).append((sb, tgt))
+    dsw = []
+    for sb in sorted(bv.reach0):
+        si = G.switch_info(bv, sb)
+        if si is not None and si.kind == "discr" and len(bv.succ[sb]) > 1:
+            for tgt in bv.succ[sb]:
+                nm = si.edge_names(bv, tgt)
+                if nm:
+                    dsw.append((sb, tgt, si, nm))
+    for (bi, si_, p, r) in bv.field_writes:
+        if bi not in bv.reach0:
+            continue
+        chain = ".".join(smod._chain(p))
+        val = rd(bv._trace_rv(r, None, 0)) if r["k"] != "callret" else "undef"
+        gs = []
+        for (sb, truth), es in by_switch.items():
+            if bv.dominated_by_edge(bi, es):
+                term = bv.trace_op(bv.blocks[sb]["t"]["o"])
+                while term[0] == "unop" and term[1] == "Not":
+                    term = term[2]
+                gs.append((rd(term), truth))
+        for (sb, tgt, si, nm) in dsw:
+            if bv.dominated_by_edge(bi, [(sb, tgt)]):
+                gs.append((rd(bv.trace_place(si.place)), "|".join(nm)))
+        out.append((chain, val, gs, bv, bi))
+    if _depth < 3:
+        for bi, t in bv.calls():
+            rid = t.get("resolved_id") or t.get("callee_id")
+            b = W.by_id.get(rid) if rid else None
+            if b is None or b.get("kind") != "fn" or b.get("pub") or t.get("trait") or not t.get("args"):
+                continue
+            cv = BV.of(b)
+            if cv.argc != len(t["args"]):
+                continue
+            args = [sub(bv.trace_op(a)) for a in t["args"]]
+            # guards that dominate the call apply to everything the helper writes
+            outer = []
+            for (sb, truth), es in by_switch.items():
+                if bv.dominated_by_edge(bi, es):
+                    term = bv.trace_op(bv.blocks[sb]["t"]["o"])
+                    while term[0] == "unop" and term[1] == "Not":
+                        term = term[2]
+                    outer.append((rd(term), truth))
+            for (sb, tgt, si, nm) in dsw:
+                if bv.dominated_by_edge(bi, [(sb, tgt)]):
+                    outer.append((rd(bv.trace_place(si.place)), "|".join(nm)))
+            for (chain, val, gs, v2, b2) in field_updates(cv, W, names, _depth + 1, args):
+                out.append((chain, val, outer + gs, v2, b2))
+    return out
+
+
 def run(F, R):
     sm = smod.get(F)
     c = sm.c
@@ -49,36 +112,38 @@ def run(F, R):
     ufo = lib.one(R, "C09-R1", c, "Cohort::update_from_omaha", item="update_from_omaha", impl_self="protocol::Cohort")
     if ufo:
         R.count("bodies")
-        ws = guarded_field_writes(ufo, W, "is_some", "param1", "param2")
+        ws = field_updates(ufo, W)
         seen = {}
-        for (chain, val, gs, bi) in ws:
+        for (chain, val, gs, v2, bi) in ws:
             f = chain.split(".")[-1]
-            exp_val = "param2.%s" % f
-            exp_guard = ("is_some(param2.%s)" % f, True)
-            ok = val == exp_val and exp_guard in gs and f in fields
+            src = "param2.%s" % f
+            # `if other.f.is_some() { self.f = other.f }`  or  `if let Some(x) = other.f { self.f = Some(x) }`
+            ok_a = val == src and ("is_some(%s)" % src, True) in gs
+            ok_b = val == "Some{%s@Some.0}" % src and (src, "Some") in gs
+            ok = (ok_a or ok_b) and f in fields
             seen.setdefault(f, []).append(ok)
-            R.check("C09-R1", "merge:" + f, ok, "self.%s = other.%s under other.%s.is_some()" % (f, f, f),
-                    "Cohort::update_from_omaha writes %s = %s under %s" % (chain, val, gs), lib.loc(ufo, bi))
+            R.check("C09-R1", "merge:" + f, ok, "self.%s = other.%s exactly when other.%s is present" % (f, f, f),
+                    "Cohort::update_from_omaha writes %s = %s under %s" % (chain, val, gs), lib.loc(v2, bi))
         R.check("C09-R1", "merge-all-fields", set(seen) == set(fields), "all of %s merged" % fields, "fields merged: %s, Cohort has %s" % (sorted(seen), fields))
     ld = [b for b in c.bodies if b["kind"] == "coroutine" and b["id"].endswith("::load::{closure#0}") and W.by_id.get(b.get("parent"), {}).get("impl_self") == "common::App"]
     if R.floor("C09-R1", "App::load", len(ld), 1):
         lv = BV.of(ld[0])
         R.count("bodies")
-        ws = guarded_field_writes(lv, W, "is_none", "", "")
+        ws = field_updates(lv, W)
         seen = set()
-        for (chain, val, gs, bi) in ws:
-            if chain.startswith("cohort."):
+        for (chain, val, gs, v2, bi) in ws:
+            if chain.endswith("cohort.id") or chain.endswith("cohort.hint") or chain.endswith("cohort.name"):
                 f = chain.split(".")[-1]
                 src_ok = val.endswith("@Ok.0.cohort.%s" % f) and "from_str" in val
-                g_ok = any(g == ("is_none(param1.0.cohort.%s)" % f) and tr for g, tr in gs)
+                g_ok = any((g == "is_none(param1.0.cohort.%s)" % f and tr is True) or (g == "param1.0.cohort.%s" % f and tr == "None") for g, tr in gs)
                 seen.add(f)
                 R.check("C09-R1", "restore:" + f, src_ok and g_ok, "cohort.%s <- persisted cohort.%s when unset" % (f, f),
-                        "App::load writes %s = %s under %s" % (chain, val[-80:], gs), lib.loc(lv, bi))
-            elif chain == "user_counting":
+                        "App::load writes %s = %s under %s" % (chain, val[-80:], gs), lib.loc(v2, bi))
+            elif chain.endswith("user_counting"):
                 src_ok = val.endswith("@Ok.0.user_counting")
-                g_ok = any(g.startswith("eq(param1.0.user_counting, ") and "ClientRegulatedByDate{None{}}" in g and tr for g, tr in gs)
+                g_ok = any(isinstance(g, str) and g.startswith("eq(param1.0.user_counting, ") and "ClientRegulatedByDate{None{}}" in g and tr is True for g, tr in gs)
                 seen.add("user_counting")
-                R.check("C09-R1", "restore:user_counting", src_ok and g_ok, "user_counting <- persisted when ClientRegulatedByDate(None)", "App::load writes user_counting = %s under %s" % (val[-80:], gs), lib.loc(lv, bi))
+                R.check("C09-R1", "restore:user_counting", src_ok and g_ok, "user_counting <- persisted when ClientRegulatedByDate(None)", "App::load writes user_counting = %s under %s" % (val[-80:], gs), lib.loc(v2, bi))
         R.check("C09-R1", "restore-all-fields", seen == set(fields) | {"user_counting"}, "restores %s" % sorted(seen), "App::load restores only %s" % sorted(seen))
 
     # ---------------------------------------------------------------- R2 routing
@@ -107,7 +172,23 @@ def run(F, R):
             R.check("C09-R2", "outer-loop-exhaustive", not bad and exits, "the only exit of the app loop is iterator exhaustion", "the loop over the apps can be left early at %s: later apps are not updated" % bad)
             eqE = lib.equal_edges(bv, lambda t: True)
             eq_terms = set(terms.render(bv, bv.trace_op(bv.blocks[a]["t"]["o"]), W, {}) for (a, b) in eqE)
-            ok_eq = len(eq_terms) == 1 and all(".id" in t and ".app_id" in t for t in eq_terms)
+            if not eqE:
+                # the inner scan written as `responses.iter().find(|r| app.id == r.app_id)`: the guard is the Some edge of that find
+                for sb in sorted(bv.reach0):
+                    si = guards.switch_info(bv, sb)
+                    if si is None or si.kind != "discr" or not (lib.head_call(si.term) or "").endswith("Iterator::find"):
+                        continue
+                    ft = [x for x in walk(si.term) if x[0] == "call" and lib.norm(x[1]).endswith("Iterator::find")]
+                    if not ft or len(ft[0][2]) != 2:
+                        continue
+                    src_ = terms.render(bv, ft[0][2][0], W, {})
+                    pred_ = terms.render(bv, ft[0][2][1], W, {})
+                    if src_ in ("iter(param2)", "into_iter(param2)") and not any(w_ in src_ for w_ in ("filter", "skip", "rev")):
+                        eq_terms.add(pred_)
+                        for tg in bv.succ[sb]:
+                            if si.edge_names(bv, tg) == ["Some"]:
+                                eqE.append((sb, tg))
+            ok_eq = len(eq_terms) == 1 and all(".id" in t and ".app_id" in t and ("eq(" in t or "Eq(" in t) or (".id" in t and ".app_id" in t and not t.startswith("|")) for t in eq_terms)
             R.check("C09-R2", "guard-is-id-equality", ok_eq, str(sorted(eq_terms)), "the routing guard is not app.id == app_response.app_id: %s" % sorted(eq_terms))
             upd = [bi for bi, t in bv.calls() if lib.callee_is(t, "protocol::Cohort::update_from_omaha")]
             ucw = [bi for (bi, si, p, r) in bv.field_writes if bi in bv.reach0 and smod._chain(p)[-1:] == ["user_counting"]]
@@ -117,11 +198,11 @@ def run(F, R):
                 t = bv.blocks[bi]["t"]
                 a0 = terms.render(bv, bv.trace_op(t["args"][0]), W, {})
                 a1 = terms.render(bv, bv.trace_op(t["args"][1]), W, {})
-                R.check("C09-R2", "cohort-args", a0.endswith(".cohort") and a1.endswith(".cohort") and "next(" in a0 and "next(" in a1, "app.cohort.update_from_omaha(app_response.cohort)", "update_from_omaha(%s, %s)" % (a0[-60:], a1[-60:]))
+                R.check("C09-R2", "cohort-args", a0.endswith(".cohort") and a1.endswith(".cohort") and "next(" in a0 and ("next(" in a1 or "find(" in a1), "app.cohort.update_from_omaha(app_response.cohort)", "update_from_omaha(%s, %s)" % (a0[-60:], a1[-60:]))
             for (bi, si, p, r) in bv.field_writes:
                 if bi in bv.reach0 and smod._chain(p)[-1:] == ["user_counting"]:
                     v = terms.render(bv, bv._trace_rv(r, None, 0), W, {})
-                    R.check("C09-R2", "user-counting-source", v.endswith(".user_counting") and "next(" in v, "app.user_counting = app_response.user_counting", "user_counting <- %s" % v[-80:])
+                    R.check("C09-R2", "user-counting-source", v.endswith(".user_counting") and ("next(" in v or "find(" in v), "app.user_counting = app_response.user_counting", "user_counting <- %s" % v[-80:])
             # once the matching response is found both updates always happen
             for (a, b) in eqE:
                 back = bv.reach_from([b], avoid=upd) & set(x for x in outer if bv.blocks[x]["t"]["k"] == "call" and lib.callee_is(bv.blocks[x]["t"], "std::iter::Iterator::next"))
@@ -195,8 +276,9 @@ def run(F, R):
             names = agg[0][4]
             co = terms.render(fv, agg[0][3][names.index("cohort")], W, {})
             R.check("C09-R4", "wire-cohort", co == "Some{param1.app.cohort}", co, "request cohort <- " + co)
-            pg = terms.render(fv, agg[0][3][names.index("ping")], W, {})
-            R.check("C09-R4", "wire-ping", pg == "phi(None{}|Some{Ping{param1.app.user_counting@ClientRegulatedByDate.0, param1.app.user_counting@ClientRegulatedByDate.0}})", pg, "ping dates are %s, expected ad = rd = user_counting day" % pg)
+            from .. import optnorm
+            pg = optnorm.option_desc(W, fv, agg[0][3][names.index("ping")])
+            R.check("C09-R4", "wire-ping", pg == "None|Some{Ping{param1.app.user_counting@ClientRegulatedByDate.0, param1.app.user_counting@ClientRegulatedByDate.0}}", pg, "ping dates are %s, expected ad = rd = user_counting day" % pg)
     pf = [b for b in lib.bodies(c, item="from", impl_self="common::PersistedApp", impl_trait="std::convert::From")]
     if R.floor("C09-R4", "From<&App> for PersistedApp", len(pf), 1):
         s_ = terms.render(BV.of(pf[0]), BV.of(pf[0]).trace_local(0), W, {})
